@@ -115,6 +115,11 @@ pub struct GenCfg {
     pub txn: bool,
     pub invalid: bool,
     pub exotic_values: bool,
+    /// swarm knobs for sizes: a run with `big_values` sometimes stores values of 4-9 KiB (some of them all
+    /// zero bytes); a run with `many_keys` draws keys from a pool of 300 and writes up to 200 at once, so
+    /// one element's key-value vector grows by more than a page in one step
+    pub big_values: bool,
+    pub many_keys: bool,
 }
 
 pub const KEYS: [&str; 8] = ["k", "name", "age", "tag", "x", "y", "data", "a-rather-long-key-name"];
@@ -152,7 +157,11 @@ impl<'a> Gen<'a> {
                 }
             };
         }
+        let big = self.cfg.big_values;
         let len = |r: &mut Rng| -> usize {
+            if big && r.chance(1, 6) {
+                return r.range(4090, 9000) as usize;
+            }
             match r.below(8) {
                 0 => 0,
                 1 => 14,
@@ -165,7 +174,7 @@ impl<'a> Gen<'a> {
         match r.below(9) {
             0 => {
                 let n = len(r);
-                Val::Bytes(r.bytes(n))
+                if r.chance(1, 4) { Val::Bytes(vec![0u8; n]) } else { Val::Bytes(r.bytes(n)) }
             }
             1 => Val::I64(*r.pick(&[0, 1, -1, i64::MIN, i64::MAX, 42, -7, 1 << 40])),
             2 => Val::U64(*r.pick(&[0, 1, u64::MAX, 1 << 63, 7, 0xFFFF_FFFF])),
@@ -182,6 +191,9 @@ impl<'a> Gen<'a> {
     }
 
     pub fn key(&mut self) -> Val {
+        if self.cfg.many_keys {
+            return Val::Str(format!("key{}", self.rng.below(300)));
+        }
         if self.cfg.exotic_values && self.rng.chance(1, 3) {
             return self.val();
         }
@@ -194,6 +206,7 @@ impl<'a> Gen<'a> {
 
     /// key-value list with distinct keys
     pub fn kvs(&mut self, max: u64) -> Vec<Kv> {
+        let max = if self.cfg.many_keys && self.rng.chance(1, 4) { 200 } else { max };
         let n = self.rng.below(max + 1);
         let mut out: Vec<Kv> = vec![];
         for _ in 0..n {
@@ -413,6 +426,8 @@ pub fn default_cfg(rng: &mut Rng, profile: Profile) -> GenCfg {
         txn: rng.chance(3, 4),
         invalid: rng.chance(2, 3),
         exotic_values: profile == Profile::Values || rng.chance(1, 3),
+        big_values: rng.chance(1, 6),
+        many_keys: rng.chance(1, 10),
     }
 }
 
